@@ -730,7 +730,7 @@ def rule_registry_file_name_agrees(repo: Repo, rep, rule: str = "R11.6") -> None
     rep.count(f"{rule}:emitter_mentions", len(en))
     rep.count(f"{rule}:generator_mentions", len(gn))
     rep.require(len(en) >= 1, f"{rule}: the exceptions emitter no longer names its registry file with a string constant (anchor)")
-    rep.require(len(gn) >= 2, f"{rule}: the generator no longer names the registry file it rescues / seeds (anchor, {len(gn)} mention(s))")
+    rep.require(len(gn) >= 1, f"{rule}: the generator no longer names the registry file it rescues / seeds (anchor, {len(gn)} mention(s))")
     if not en or not gn:
         return
     names_e = sorted({v for v, _ in en})
